@@ -23,6 +23,7 @@ From TucModel Require Import Base.Bytes Base.ListX Model.Bounds Spec.Resolve Pro
   Spec.Fields Proofs.ScanSplit Tie.RsScan Tie.Gen_fill_fields Tie.Bridge_fill_fields Tie.Gen_compress_delimiter Tie.Bridge_compress_delimiter
   Proofs.C01More Tie.Gen_trim Tie.Bridge_trim
   Tie.Gen_fb_try_from Tie.Bridge_fb_try_from
+  Proofs.C12 Proofs.C16 Tie.Gen_fill_regex Tie.Bridge_fill_regex Tie.Gen_trim_regex Tie.Bridge_trim_regex
   Proofs.Plain Proofs.C16Replace Tie.RsRegex Tie.Gen_maybe_replace Tie.Bridge_maybe_replace
   Model.CutStr Tie.Gen_fast_output_parts Tie.Bridge_fast_output_parts Tie.Gen_fast_cut_record Tie.Bridge_fast_cut_record Proofs.C02
   Proofs.C13 Proofs.C06 Proofs.C03Full Proofs.C19 Proofs.C18Iff.
@@ -316,7 +317,24 @@ Proof.
     first [discriminate H | destruct H as [v H]; discriminate H].
 Qed.
 
+(** C16 over the translated regex splitter and trimmer: with -e RE the fields are the gaps between the
+    successive leftmost non-overlapping matches of RE (-g: of (RE)+, the maximal runs), whatever the scratch
+    buffer held; -t removes the first match only when it starts the record and the last one only when it
+    ends it *)
+Theorem tie_C16_fields_are_the_gaps : forall (buffer0 : list (Z * Z)) (line : bytes) (r : re),
+  gen_fill_regex buffer0 line (rb_normal (RxRe r)) = Ret (tt, map mzz (fields_of_matches (re_find_iter r line) line)) /\
+  gen_fill_regex buffer0 line (rb_greedy (RxRe r)) = Ret (tt, map mzz (fields_of_matches (re_find_iter (RPlus r) line) line)).
+Proof. intros buffer0 line r. split; apply tie_fill_regex; reflexivity. Qed.
+
+Theorem tie_C16_trim : forall (line : bytes) (k : trimk) (r : re),
+  gen_trim_regex line k (rb_greedy (RxRe r)) = Ret (trim_matches k (re_find_iter (RPlus r) line) line).
+Proof.
+  intros line k r. apply tie_trim_regex; [reflexivity|]. apply (proj1 (re_matches_wf (RPlus r) line)).
+Qed.
+
 Print Assumptions tie_try_into_range_spec.
+Print Assumptions tie_C16_fields_are_the_gaps.
+Print Assumptions tie_C16_trim.
 Print Assumptions tie_C19_forward_bounds_test.
 Print Assumptions tie_C16_selected_text_is_rejoined_with_R.
 Print Assumptions tie_C16_after_compress_printed_as_it_is.
